@@ -81,6 +81,9 @@ def solve_one(task):
             out += '; cvc5: %s' % r2
             if r2 == 'unsat':
                 return idx, 'proved', 'cvc5-1.0.3', total, None, out
+            if r2 == 'sat':
+                # a refutation without a model: the native replay has to find the failing input
+                return idx, 'refuted', 'cvc5-1.0.3 (sat, no model extracted)', total, {}, out
         if os.path.exists('/usr/bin/z3'):
             r3, dt3 = _solve_cli(['/usr/bin/z3', '-T:%d' % max(1, timeout_ms // 1000)], text, timeout_ms / 1000)
             total += dt3
